@@ -47,9 +47,19 @@ def generate(rng, tier):
     dirs = gen.tree_dirs(tree)
     rng.shuffle(dirs)
     nested = sorted(dirs[: rng.randint(0, min(3, len(dirs)))])
+    twin_ops = []
+    if rng.random() < 0.12:
+        # a folder with its own history that was copied, history and all, to a second place below the same root (one
+        # camera card on two drives): two histories with byte-identical manifests of the same name
+        a, b = rng.choice([("driveA/A001", "driveB/A001"), ("A001", "A001 copy"), ("z/card", "b/card")])
+        for d in {os.path.dirname(a), a} - {""}:
+            tree[d] = {"t": "d"}
+        tree[a + "/clip.mov"] = {"t": "f", "c": gen.unique_content(rng)}
+        fm = gen.fmt_args(gen.pick_formats(rng, 1, 2))
+        twin_ops = [scen.cmd("create", "@R/" + a, *fm)] * rng.randint(1, 2) + [{"op": "copy_tree", "src": a, "dst": b, "fault": "history_copied"}]
     ops, info = scen.gen_history_ops(rng, tree, n_gens=rng.randint(1, 4), nested=nested, p_sf=0.15, p_n=0.1,
                                      p_edit=0.15, edit_kinds=("add", "touch"), formats_hi=2)
-    return {"world": env, "ops": ops, "triples": "all" if tier == "thorough" else "sample",
+    return {"world": env, "ops": twin_ops + ops, "triples": "all" if tier == "thorough" else "sample",
             "triple_seed": rng.getrandbits(32)}
 
 
